@@ -91,14 +91,14 @@ def judge : List String → String
                              cookies := ck, body := bo, rawFilter := b01 rf }
                            { env := env, names := nm, get := og, post := op, cookies := oc, body := ob })
     | _, _, _, _, _, _, _, _, _, _, _, _, _, _, _ => "bad-op"
-  | "c02" :: exc :: probeOk :: closed :: reset :: pre :: ready :: onerr :: n200 :: nErr :: framed :: cmd =>
-    match runModel cmd, pre.toNat?, ready.toNat?, onerr.toNat?, n200.toNat?, nErr.toNat? with
-    | some outs, some pre, some ready, some onerr, some n200, some nErr =>
+  | "c02" :: exc :: probeOk :: closed :: reset :: pre :: ready :: onerr :: eoc :: n200 :: nErr :: framed :: cmd =>
+    match runModel cmd, pre.toNat?, ready.toNat?, onerr.toNat?, eoc.toNat?, n200.toNat?, nErr.toNat? with
+    | some outs, some pre, some ready, some onerr, some eoc, some n200, some nErr =>
       boolStr (Spec.c02ok { exc := b01 exc, probeOk := b01 probeOk, closed := b01 closed, reset := b01 reset,
-                            pre := pre, ready := ready, onError := onerr, n200 := n200, nErr := nErr, framed := b01 framed,
+                            pre := pre, ready := ready, onError := onerr, eoc := eoc, n200 := n200, nErr := nErr, framed := b01 framed,
                             specApps := (outs.filter isApp).length, specPre := (outs.map preOf).sum,
                             specCrash := outs.any isCrash })
-    | _, _, _, _, _, _ => "bad-op"
+    | _, _, _, _, _, _, _ => "bad-op"
   | _ => "bad-op"
 
 def step (_ : Unit) (line : String) : Unit × String :=
